@@ -4,6 +4,7 @@ CONSTANT MaxH = 12
 CONSTANT Kernels = {1}
 CONSTANT Strides = {1}
 CONSTANT Dilations = {1}
+CONSTANT EmitCases = FALSE
 CONSTANT Shrink = 0
 CONSTANT Mutant = "none"
 INVARIANT Report
